@@ -239,6 +239,8 @@ class Ev:
         if isinstance(v, Obj):
             m = self.dunder(v, "__iter__")
             if m is None:
+                if "_fields" in v.__dict__:  # a NamedTuple record: its fields in order
+                    return [v.__dict__[f] for f in v.__dict__["_fields"]]
                 raise _ModelRaise("TypeError: not iterable")
             return list(m(v))
         if v is None or isinstance(v, (int, float, bool)) or callable(v):
@@ -347,6 +349,11 @@ class Ev:
                 if callable(base.__dict__.get("__getitem__")):
                     return base.__dict__["__getitem__"](idx)
                 m = self.dunder(base, "__getitem__")
+                if m is None and "_fields" in base.__dict__ and isinstance(idx, int) and not isinstance(idx, bool):
+                    try:
+                        return base.__dict__[base.__dict__["_fields"][idx]]  # record[i]
+                    except IndexError as err:
+                        raise _ModelRaise("IndexError") from err
                 if m is None:
                     # a gap of the model (a stub object), not a property of the code under analysis
                     raise self.bad(n, f"subscript of a model object of kind {base.kinds[0]}")
